@@ -325,6 +325,38 @@ fn one(runner: &Runner, seed: u64, i: usize, keys: usize, lattice_budget: usize)
     res.orders = orders.len();
     res.nontrivial = !out0.diags.is_empty() && model.user_defs.len() >= 1;
 
+    // nothing that was named can be loaded: the errors are displayed, so the exit status is 1
+    {
+        let mut c = b.case.clone();
+        let n_named = b.project.named_paths().len();
+        let head = c.argv.len() - n_named;
+        match r.usize(3) {
+            0 => {
+                c.argv.truncate(head);
+                c.argv.push("ghost.circom".into());
+            }
+            1 => {
+                for p in b.project.named_paths() {
+                    corrupt_file(&mut c.world, &p, &Corruption::BadUtf8(0));
+                }
+            }
+            _ => {
+                for p in b.project.named_paths() {
+                    c.plan.faults.push(Fault { call: "open".into(), errno: libc::EACCES, occurrence: 0, suffix: p });
+                }
+            }
+        }
+        if let Ok(o) = runner.run(&c) {
+            res.runs += 1;
+            if !crashed(&o) {
+                let out = parse_stdout(&o.stdout);
+                if let Some((sig, d)) = contract(&o, &out, true, false) {
+                    violation(format!("{sig}:nothing-loadable"), d, &c, &mut res);
+                    return res;
+                }
+            }
+        }
+    }
     // the option lattice over the ids of the unfiltered run (same hash key)
     let ids: Vec<String> = {
         let s: BTreeSet<String> = out0.diags.iter().filter_map(|d| d.code.clone()).collect();
